@@ -8,7 +8,7 @@ import subprocess
 import sys
 import time
 
-VERIF = '/verif'
+VERIF = os.path.dirname(os.path.dirname(os.path.abspath(__file__)))
 REPO = os.environ.get('VERIF_REPO', '/repo')
 BUILD = os.path.join(VERIF, '_build')
 COQ = os.path.join(VERIF, 'coq')
